@@ -158,8 +158,9 @@ Definition check_C08 (ts : list N) : list N :=
     | None => v_bad
     end
   (* end-to-end rig (real binary in a network namespace, tools/rig.py):
-     kind 20: [20; klass; path; status]  HTTP GET from a client whose first matching rule grants
-              http-ro (klass 1) or does not (klass 0); path 0 "/", 1 "/metrics", 2 leases, 3 other
+     kind 20: [20; klass; path; status]  HTTP GET from a client whose first matching rule grants the
+              permission the path needs (klass 1) or does not (klass 0), one request per connection
+              or several on one keep-alive connection; path 0 "/", 1 "/metrics", 2 leases, 3 other
      kind 21: [21; klass; got; rcode]    DNS query from a client whose first matching rule grants
               dns-recursion (klass 1) or does not (klass 0) *)
   | [20; klass; path; status] =>
